@@ -19,34 +19,34 @@ type Clause struct {
 type Contract struct {
 	Owns          []string // `owns Type.field ...`: fields this (goroutine) body may touch without the mutex (protocol-owned)
 	NoLockExit    bool     // do not generate the automatic lock-balance assertion at returns
-	Locked        bool   // `locked`: the function is entered (and left) with the UI mutex held
-	Arith2        string // "heapwf": state heap well-formedness (all stored refs < alloc) before every allocation
+	Locked        bool     // `locked`: the function is entered (and left) with the UI mutex held
+	Arith2        string   // "heapwf": state heap well-formedness (all stored refs < alloc) before every allocation
 	Deterministic bool
 	StoreOnly     []StoreOnly // `storeonly T.field expr`: every store to that field in this function goes through the object expr
-	Order         bool // `strorder`: the order-preserving content homomorphism nsx (blank cells removed) is in play
-	Prov          bool // `provenance`: values embedded in a JSON document inherit its servedBy (axiom about decoded documents)
-	Cells         bool // `cells`: the function handles the match lists of ansi.expand (cell model on loads)
-	Lines         bool // `strlines`: line-measure facts (mxl/fstl/lstl) are emitted for its strings
-	Key       string // pkg.Func | pkg.Type.Method | pkg.Func$1
-	Kind      string // func | iface | field
-	Header    string
-	Params    []string // parameter names from header (iface/field contracts)
-	Requires  []Clause
-	Ensures   []Clause
-	Assigns   []Expr
-	HasAssign bool
-	LoopInv   map[int][]Clause
-	LoopDec   map[int]Clause
-	Arith     string
-	Trusted   string // non-empty: body not verified, reason
-	Inline    bool
-	Where     string
-	Props     []string
-	CallSites []CallAssert
-	Exits     []Clause         // `exit <expr>`: must hold at every return, with locals in scope
-	BackEdges map[int][]Clause // `loop N backedge <expr>`: must hold whenever the loop body jumps back
-	Defines   string   // ufunc that denotes this (pure, deterministic) function's result
-	Witness   []Clause // extra entry-state terms reported with counterexamples
+	Order         bool        // `strorder`: the order-preserving content homomorphism nsx (blank cells removed) is in play
+	Prov          bool        // `provenance`: values embedded in a JSON document inherit its servedBy (axiom about decoded documents)
+	Cells         bool        // `cells`: the function handles the match lists of ansi.expand (cell model on loads)
+	Lines         bool        // `strlines`: line-measure facts (mxl/fstl/lstl) are emitted for its strings
+	Key           string      // pkg.Func | pkg.Type.Method | pkg.Func$1
+	Kind          string      // func | iface | field
+	Header        string
+	Params        []string // parameter names from header (iface/field contracts)
+	Requires      []Clause
+	Ensures       []Clause
+	Assigns       []Expr
+	HasAssign     bool
+	LoopInv       map[int][]Clause
+	LoopDec       map[int]Clause
+	Arith         string
+	Trusted       string // non-empty: body not verified, reason
+	Inline        bool
+	Where         string
+	Props         []string
+	CallSites     []CallAssert
+	Exits         []Clause         // `exit <expr>`: must hold at every return, with locals in scope
+	BackEdges     map[int][]Clause // `loop N backedge <expr>`: must hold whenever the loop body jumps back
+	Defines       string           // ufunc that denotes this (pure, deterministic) function's result
+	Witness       []Clause         // extra entry-state terms reported with counterexamples
 }
 
 // StoreOnly: `storeonly T.field <expr>` -- ownership protocol of a goroutine: it may write that field only of the
@@ -121,10 +121,10 @@ type ContractSet struct {
 	TypeInvs   []TypeInv
 	UFuncs     []UFDecl
 	Immutables []Immutable
-	Funcs  map[string]*Contract
-	Preds  map[string]*Pred
-	Errors []string
-	Files  []string
+	Funcs      map[string]*Contract
+	Preds      map[string]*Pred
+	Errors     []string
+	Files      []string
 }
 
 var hdrRe = regexp.MustCompile(`^func\s+(?:\(\s*\w*\s*\*?\s*(\w+)(?:\[[^\]]*\])?\s*\)\s*)?([\w$#]+)`)
